@@ -160,12 +160,18 @@ def cases(tier, mode='func'):
             return step_cases(tier, prefix='c07', ops=('REMOVE', 'REMOVE_IDX'), Ms=[3], filt=chained3, extra=e) + \
                 [c for c in step_cases(tier, prefix='c07', ops=('PUT',), Ms=[3], filt=one_chain, few=True, extra=e) if '.k0.v1' in c.cid] + \
                 step_cases(tier, prefix='c07', checks='safety', ops=('GET', 'CLEAR', 'REMOVE_IDX', 'REMOVE'), Ms=[2], extra=e) + \
-                step_cases(tier, prefix='c07', checks='safety', ops=('PUT',), Ms=[2], few=True, filt=lambda L: L['nkeys'] <= 1, extra=e) + ctor_cases(tier)
+                [c for c in step_cases(tier, prefix='c07', checks='safety', ops=('PUT',), Ms=[2], few=True, filt=lambda L: L['nkeys'] <= 1, extra=e) if not c.cid.endswith('.v28')] + ctor_cases(tier)
         return step_cases(tier, prefix='c07', checks='safety', ops=('PUT', 'REMOVE', 'REMOVE_IDX', 'GET', 'CLEAR'), Ms=[2, 3], extra={'VF_C07': None}) + ctor_cases(tier)
     if mode == 'safety':
-        return step_cases(tier, prefix='c11', checks='safety', leak=True, Ms=[2], safety_owner='C11', few=True, filt=(lambda L: L['nkeys'] <= 1) if q else None, ops=('PUT', 'REMOVE', 'WALK', 'GET') if q else ('PUT', 'GET', 'REMOVE', 'REMOVE_IDX', 'WALK', 'CLEAR'))
+        cs = step_cases(tier, prefix='c11', checks='safety', leak=True, Ms=[2], safety_owner='C11', few=True, filt=(lambda L: L['nkeys'] <= 1) if q else None, ops=('PUT', 'REMOVE', 'WALK', 'GET') if q else ('PUT', 'GET', 'REMOVE', 'REMOVE_IDX', 'WALK', 'CLEAR'))
+        if q:   # multi-slot puts under the full safety flags cost 150-350 s each: thorough tier (and C07) only
+            cs = [c for c in cs if '.PUT.' not in c.cid or c.cid.endswith('.v1')]
+        return cs
     if mode == 'copy':
-        return step_cases(tier, prefix='c12', checks='safety', ops=('PUT', 'GET', 'WALK'), Ms=[2], safety_owner='C11', few=True, filt=(lambda L: L['nkeys'] <= 1) if q else None)
+        cs = step_cases(tier, prefix='c12', checks='safety', ops=('PUT', 'GET', 'WALK'), Ms=[2], safety_owner='C11', few=True, filt=(lambda L: L['nkeys'] <= 1) if q else None)
+        if q:
+            cs = [c for c in cs if '.PUT.' not in c.cid or c.cid.endswith('.v1')]
+        return cs
     if mode in ('lock', 'allocfail'):
         return []
     raise ValueError(mode)
